@@ -296,6 +296,7 @@ fn gen_cfg_params(rng: &mut Rng) -> GenCfg {
         addresses: true,
         entry_in_loop: true,
         allow_div: false,
+        index_gaps: true,
     }
 }
 
